@@ -81,7 +81,7 @@ def worker(job, r):
             if frag is not None and path is None and query is None:
                 path = '/'      # domain decision: the vendored http_parser does not accept '#' right after the authority
             for embedded in (None, (rng.choice(USERS), rng.choice(KEYS))):
-                for explicit in (None, (rng.choice(USERS) + 'X', rng.choice(KEYS) + 'X')):
+                for explicit in (None, (rng.choice(USERS) + 'X', rng.choice(KEYS) + 'X'), (rng.choice(USERS) + 'X', None), (None, rng.choice(KEYS) + 'X')):
                     for api in ('aggr', 'ext', 'async-sign', 'async-ext'):
                         if rng.random() < 0.55:
                             continue
@@ -91,7 +91,13 @@ def worker(job, r):
                             uri = spelled + '://' + (path or '/tmp/none') + ('x' if path else '')
                         else:
                             uri = compose(spelled, embedded, host, port, path, query, frag)
-                        cred = explicit or (embedded if repl is not None or transport == 'tcp' else None)   # only ksi schemes carry KSI credentials
+                        emb = embedded if repl is not None or transport == 'tcp' else None   # only ksi schemes carry KSI credentials
+                        # each explicit argument takes precedence on its own; what is not given explicitly comes from the URI
+                        eu = (explicit[0] if explicit and explicit[0] else (emb[0] if emb else None))
+                        ek = (explicit[1] if explicit and explicit[1] else (emb[1] if emb else None))
+                        cred = (eu, ek) if eu is not None and ek is not None else None
+                        if explicit and None in explicit and rng.random() < 0.5:
+                            continue
                         ci += 1
                         one_case(sess, r, rng, ci, canon, spelled, uri, transport, repl, host, port, path, query, frag, embedded, explicit, cred, api)
         # KSI_UriSplitBasic
@@ -111,8 +117,8 @@ def worker(job, r):
 def one_case(sess, r, rng, ci, canon, spelled, uri, transport, repl, host, port, path, query, frag, embedded, explicit, cred, api):
     c = sess.cmd
     c('ctx 0')
-    user = explicit[0] if explicit else '-'
-    key = explicit[1] if explicit else '-'
+    user = explicit[0] if explicit and explicit[0] else '-'
+    key = explicit[1] if explicit and explicit[1] else '-'
     nhttp, ntcp, nfo, nres, nasync = len(sess.http), len(sess.tcp_order), len(sess.fopens), len(sess.resolved), len(sess.http_async)
     replay = 'api=%s uri=%s explicit=%s' % (api, uri, explicit)
     is_async = api.startswith('async')
